@@ -20,7 +20,7 @@ for i in range(n):
     pair.close()
     if tr.disagreements:
         bad+=1
-        idx, fields = tr.disagreements[0]
+        idx, fields = tr.disagreements[0]['index'], tr.disagreements[0]['fields']
         print("DISAGREE", variant, seed0+i, "op#", idx, fields)
         for (l,a,b) in tr.ops[max(0,idx-1):idx+1]:
             print("   OP ", l[:300]); print("   IMPL", a[:1500]); print("   MODL", b[:1500])
